@@ -147,7 +147,7 @@ def confirm_known(rep):
             except Exception as ex:
                 rep.errors.append("known finding %s: replay failed to run: %r" % (e['id'], ex))
                 continue
-            if rc == 1:
+            if rc == 1 and 'FAIL' in out:
                 rep.known.append("%s: %s" % (e['id'], e['what']))
             elif rc == 0:
                 rep.notes.append("known finding %s no longer reproduces on this tree (fixed?)" % e['id'])
@@ -187,9 +187,10 @@ def finish(rep, level='proof', technique='', trusted_base=(), checker_cmd='', ex
                 except Exception as ex:
                     rc, out = 99, repr(ex)
                 seen_scripts[script] = (rp, rc, out)
-            if rc == 1:
+            if rc == 1 and 'FAIL' in out:      # a replay script that crashes (rc 1, no FAIL line) confirms nothing
+                fail = [l for l in out.strip().split('\n') if l.startswith('FAIL')]
                 vio_lines.append("VIOLATION property=%s replay=%s obligation=%s :: %s"
-                                 % (rep.pid, rp, o.name, out.strip().split('\n')[-1][:200]))
+                                 % (rep.pid, rp, o.name, (fail or [out.strip().split('\n')[-1]])[0][:200]))
                 continue
             with open(rp, 'a') as f:
                 f.write("\n# replay on the real build: rc=%s (counter-model did not reproduce)\n# %s\n"
